@@ -60,6 +60,9 @@ type ctxT struct {
 	cw  *hlib.CaseWriter
 	rng *hlib.Rng
 	id  uint64
+	// further Coq terms of the case being run (same id: a replay of the case reproduces all of them)
+	extra []string
+	sub7  int // generator: 1..4 pins the sub-variant of parent shape 7 (0: random)
 }
 
 func (c *ctxT) next() uint64 { c.id++; return c.id }
@@ -68,6 +71,7 @@ func (c *ctxT) next() uint64 { c.id++; return c.id }
 func (c *ctxT) run(cs Case) {
 	c.rep.Evaluations++
 	c.rep.Count("kind:" + cs.Kind)
+	c.extra = nil
 	var term string
 	func() {
 		defer func() {
@@ -113,6 +117,10 @@ func (c *ctxT) run(cs Case) {
 	if term != "" {
 		c.cw.Add(fmt.Sprintf("(%d%%N, %s)", cs.ID, term), cs)
 		c.rep.TracesValidated++
+		for _, x := range c.extra {
+			c.cw.Add(fmt.Sprintf("(%d%%N, %s)", cs.ID, x), cs)
+			c.rep.TracesValidated++
+		}
 	}
 	c.rep.Sample(cs)
 }
